@@ -554,24 +554,25 @@ func (c *Ctx) classify(e *EdgeRule, k *core.Kinds) {
 		e.Class = "A"
 	case pk == k.Root:
 		e.Class = "G9"
-	case ck == k.Value && pk == k.Out:
+	// the label relations are part of the class: the same pair of kinds joined under another relation is another rule
+	case ck == k.Value && pk == k.Out && e.Rel["Type"] == "=" && e.Rel["Subtype"] == "provider-empty" && e.Rel["Name"] == "provider-empty":
 		e.Class = "G1"
-	case ck == k.Arg && pk == k.Value && e.Rel["Subtype"] == "consumer-empty":
+	case ck == k.Arg && pk == k.Value && e.Rel["Type"] == "=" && e.Rel["Subtype"] == "consumer-empty":
 		e.Class = "G2"
-	case ck == k.Arg && pk == k.Value && e.Rel["Subtype"] == "=":
+	case ck == k.Arg && pk == k.Value && e.Rel["Type"] == "=" && e.Rel["Subtype"] == "=":
 		e.Class = "G3"
 	case ck == k.Arg && pk == k.Out && e.Rel["Subtype"] == "=" && e.Rel["Type"] == "=":
 		e.Class = "G4"
-	case ck == k.Out && pk == k.Out:
+	case ck == k.Out && pk == k.Out && e.Rel["Type"] == "impl":
 		e.Class = "G5"
-	case ck == k.Value && pk == k.Value:
+	case ck == k.Value && pk == k.Value && e.Rel["Type"] == "=" && e.Rel["Subtype"] == "consumer-empty" && e.Rel["Name"] == "=":
 		e.Class = "G6"
-	case ck == k.Arg && pk == k.Out && e.Rel["Subtype"] == "consumer-empty":
+	case ck == k.Arg && pk == k.Out && e.Rel["Type"] == "=" && e.Rel["Subtype"] == "consumer-empty":
 		e.Class = "G7"
-	case ck == k.Arg && pk == k.Out && e.Rel["Subtype"] == "provider-empty":
+	case ck == k.Arg && pk == k.Out && e.Rel["Type"] == "=" && e.Rel["Subtype"] == "provider-empty":
 		e.Class = "G8"
 	default:
-		e.Class = "other:" + ck + "->" + pk
+		e.Class = fmt.Sprintf("other:%s->%s(Type:%s Subtype:%s Name:%s)", ck, pk, e.Rel["Type"], e.Rel["Subtype"], e.Rel["Name"])
 	}
 }
 
